@@ -287,6 +287,7 @@ def area_nf(ast, crate, mods, exclude_names=(), skip_types=(), known_keys=None, 
             if fn_key(it) not in known_keys and (it.get("vis") or "") in PRIVATE_VIS and not it.get("trait") and counts.get(it["name"]) == 1 and len(it["name"]) > 3:
                 new_private[it["name"]] = it
     _render.INLINE = {nm: x for nm, x in new_private.items() if x.get("body") is not None and not [p for p in x["sig"]["params"] if p.get("name") != "self"]}
+    _render.INLINE_ARGS = {nm: x for nm, x in new_private.items() if x.get("body") is not None and [p for p in x["sig"]["params"] if p.get("name") != "self"]}
     for it in select_consts(ast, crate, mods):
         key = "const %s::%s" % (it["mod"], it["name"])
         if key in res or it["name"] in consts:
@@ -326,6 +327,7 @@ def area_nf(ast, crate, mods, exclude_names=(), skip_types=(), known_keys=None, 
     if new_private:
         res["_inlined_new"] = {"kind": "note", "names": sorted(fn_key(x) for x in new_private.values())}
     _render.INLINE = {}
+    _render.INLINE_ARGS = {}
     return res
 
 
